@@ -197,7 +197,7 @@ pub fn check() -> PropertyCheck {
         subs: vec![Box::new(Pbt {
             name: "e2e-outcomes",
             quick: 80_000,
-            thorough: 300_000,
+            thorough: 4_000_000,
             strat,
             test,
             max_shrink: 4000,
